@@ -18,7 +18,7 @@ SPEC = dict(
           "the legacy {..} compiler; non-trivial+distinct = distinct patterns containing >= 1 regex metacharacter"),
     assumptions=["Python's re parser (re._parser) is trusted to describe what a compiled regex means",
                  "an all-literal pattern with an empty body (only anchors) is outside the domain"],
-    required=["k07_structure_checks", "self_match_checks", "near_miss_checks", "rewrite_checks", "grep_cli_checks",
+    required=["k07_structure_checks", "triple_field_checks", "self_match_checks", "near_miss_checks", "rewrite_checks", "grep_cli_checks",
               "legacy_checks", "config_cli_checks"],
     anchors=[("v2patterns", "_compile_pattern_re"), ("v1patterns", "_compile_pattern_re"),
              ("v2patterns", "_replace_pattern_parts"), ("v2version", "_format_segment")],
@@ -233,6 +233,19 @@ def evaluate(syms, mods, counters=None, deep=True):
                 if m2 is not None and len(m2.group(0)) > 0:
                     problems.append(("near-miss", f"pattern {pattern_r!r} matches the fragment {decoy!r} at {m2.span()}"))
                     break
+    # (2c) one field THREE times (e.g. '{version} (pip: {pep440_version}), (c) YYYY' under a calendar version pattern)
+    if not lead and not trail and not (text[-1:].isdigit() or text[:1].isdigit()):
+        pattern_t = pattern + "0M.0M" + pattern + "0M"
+        text_t = text + "11.11" + text + "11"
+        rx, err = compile_v2(pattern_t)
+        if rx is None:
+            problems.append(("compile", f"pattern {pattern_t!r} (one field three times) does not compile: {err!r}"))
+        else:
+            c("triple_field_checks")
+            hay = "zq " + text_t + " qz"
+            m = rx.search(hay)
+            if m is None or m.span() != (hay.find(text_t), hay.find(text_t) + len(text_t)):
+                problems.append(("self-match", f"pattern {pattern_t!r} on {hay!r}: {m.span() if m else None}"))
     # (3) legacy compiler: alphabet minus braces, brackets are plain literals there
     if "{" not in pattern and "}" not in pattern and not lead and not trail:
         lp = pattern + "{MAJOR}.{MINOR}"
